@@ -781,14 +781,14 @@ func (r *Runner) c16repeat(op *OpSpec, st *Step, v *value, arg interface{}, cano
 	if cb, _, ok := model.CanonBytes(a.buf()[:n]); !ok || model.Digest(cb) != canon {
 		r.violation("C16", "C16/not-repeatable", fmt.Sprintf("re-encoding the unmodified %s value gave a different message", op.Type), st)
 	}
-	if op.VSeed%8 == 0 && r.sharedFor(st) == nil {
+	if op.VSeed%3 == 0 && r.sharedFor(st) == nil {
 		// and once more after collections and a burst of small allocations: whatever the encoder compares the value
 		// with or reads besides the value (declared defaults, cached per-type data) must still be there
 		r.st(st).events["re-encode-after-collections"]++
 		runtime.GC()
 		runtime.GC()
-		keep := make([][]byte, 0, 1500)
-		for i := 0; i < 1500; i++ {
+		keep := make([][]byte, 0, 3000)
+		for i := 0; i < 3000; i++ {
 			b := make([]byte, 8+(i*7)%120)
 			for j := range b {
 				b[j] = 0x5a
